@@ -516,6 +516,9 @@ impl Sim {
         }
         rep.trace_hash = crate::harness::trace_hash(&self.trace);
         common::probes_into(&mut rep.probes);
+        if common::KNOB_READ.load(std::sync::atomic::Ordering::SeqCst) != 0 {
+            rep.fired.entry("knob:pack_read_coalescing_limits_small".to_string()).or_insert(1);
+        }
         if common::KNOB_INDEXER.load(std::sync::atomic::Ordering::SeqCst) != 0 {
             rep.fired.entry("knob:indexer_flushes_after_few_blobs".to_string()).or_insert(1);
         }
